@@ -23,6 +23,38 @@ CHECKS = {
     ),
 }
 
+def _sync(title, oracle, ref):
+    return dict(
+        category="exploration",
+        technique="runtime monitoring: " + oracle + "; seeded delay injection at hook points (window + amplifier), -O0/-O2/ASan builds, logical deadlock + livelock watchdog",
+        text=(title + " Exploration is the right level: the property quantifies over interleavings; the oracle runs over "
+              "thousands of diversified executions (worker counts 1-16(32), calm/noise/targeted profiles) and the evidence "
+              "reports which race windows and rare branches were actually entered."),
+        design_ref=ref)
+
+
+CHECKS.update({
+    "C04": _sync("Random lock/trylock/timedlock mixes by 2-200 threads on 1-4 mutexes with an occupancy witness and a plain counter in every critical section; "
+                 "failed trylocks are checked offline against the totally ordered acquisition history (a failure is a violation only if the mutex was provably free throughout the call); "
+                 "trylock is bracketed by the non-blocking check; a progress program shows a blocked locker gives its worker away.",
+                 "occupancy witness + offline interval/sequence rule over stamped lock/trylock/unlock history + non-blocking bracket", "DESIGN.md section 5 C04"),
+    "C05": _sync("Bounded buffer, turnstile, broadcast gate and ping-pong programs whose completion and counters are determinate only if no wake-up is lost; "
+                 "every wait return checks the holder witness and that a signal/broadcast was issued after the wait began (no banked or spurious wake-up).",
+                 "determinate producer/consumer patterns with unique ids, holder witness, signal-generation rule", "DESIGN.md section 5 C05"),
+    "C06": _sync("N in {1..200} participants over thousands of consecutive rounds with stragglers and racers; each participant counts its arrival before the wait and checks arrived[k]==N, arrived[k+1]<=N and exactly one serial indicator per round.",
+                 "per-round arrival counters and serial-indicator count checked at every return", "DESIGN.md section 5 C06"),
+    "C07": _sync("Join counters with N from 0 to 65536 (field-split probes up to 2^31-1), 0-64 waiters arriving before/between/after the decrements, and random DAG programs whose nodes assert their predecessors are done; "
+                 "decs_started>=N at every wait return, waits issued after the last dec returned are bracketed by the non-blocking check.",
+                 "decs-started counter at wait return, DAG predecessor assertions, non-blocking bracket", "DESIGN.md section 5 C07"),
+    "C08": _sync("Thousands of two-way rendezvous per thread pair over the same two variables following the documented announce/clear protocol, plus single-slot SPSC channels with numbered items; "
+                 "each wait return is matched with the stamp and sequence number of the signal that must have caused it and the per-side resume count.",
+                 "sequence-numbered rendezvous log (one resume per rendezvous, after its signal)", "DESIGN.md section 5 C08"),
+    "C09": _sync("Single-slot mailboxes with 1-8 producers, 1-8 consumers and plain lock/unlock users; status and exclusivity asserted under the lock; consumed multiset == produced multiset.",
+                 "unique item ids (exactly-once), status/occupancy assertions under the lock", "DESIGN.md section 5 C09"),
+    "C14": _sync("1-64 once-controls with initialisers that yield, block on a mutex, create and join threads, called by 2-500 concurrent threads; every caller checks done==1 and ran==1 right after myth_once returns; later calls are bracketed by the non-blocking check.",
+                 "ran/done counters checked at every return", "DESIGN.md section 5 C14"),
+})
+
 PENDING_REASON = "check not built yet (construction in progress; see DESIGN.md section 9)"
 
 
